@@ -707,7 +707,7 @@ def truth_spec(gram, names):
     return out
 
 
-def make_user_class(name, flavour, traits=(), lists=()):
+def make_user_class(name, flavour, traits=(), lists=(), bases=(), cell=None):
     """user class for rule `name`.  flavour = what __init__ does with `parent`;
     traits = special methods that make the instances unusual Python values:
       falsy   __bool__ is always False
@@ -716,8 +716,11 @@ def make_user_class(name, flavour, traits=(), lists=()):
               always falsy)
       iter    iterating the object yields the items of those attributes
       nohash  __eq__ without __hash__ (instances are unhashable)
-    The special methods only read attributes, also while the object is under construction."""
-    lists = list(lists)
+    The special methods only read attributes, also while the object is under construction.
+    bases = other user classes this one derives from; cell = a list object used *as is* for `lists`
+    (a class that serves several grammars one after the other is told the list attributes of the
+    grammar it is currently used with by updating the cell in place)."""
+    lists = cell if cell is not None else list(lists)
 
     def items(self):
         out = []
@@ -752,7 +755,7 @@ def make_user_class(name, flavour, traits=(), lists=()):
     if "nohash" in traits and flavour != "eq":
         ns["__eq__"] = lambda a, b: a is b
         ns["__hash__"] = None
-    return type(name, (), ns)
+    return type(name, tuple(bases), ns)
 
 
 class Loaded:
